@@ -308,6 +308,41 @@ def run_case(case):
                     res.violate(('rebuild-sets-differ',),
                                 dict(wb, touched=f, only_make=sorted(sets['make'] - sets['ninja']),
                                      only_ninja=sorted(sets['ninja'] - sets['make'])))
+        # (e) a step's command line depends neither on which target pulled it in nor on the
+        # environment of the build tool: from a clean tree, one linked target is requested by
+        # name, with compiler-flag variables set in the *build* environment only
+        links = [nd for nd in spec['nodes'] if nd['kind'] in ('exe', 'dlib') and nd.get('libs')]
+        rng2 = core.rng_for(0, 'c06single', case['touch_seed'])
+        for nd in (rng2.sample(links, 2) if len(links) > 2 else links):
+            target = dag.out_names(nd)[0]
+            for backend, p in projs.items():
+                rc, out = p.clean()
+                if rc != 0:
+                    break
+                saved = p.env
+                p.env = dict(saved, CFLAGS='-DVF_BUILD_ENV_LEAK', CPPFLAGS='-DVF_BUILD_ENV_CPP',
+                             CXXFLAGS='-DVF_BUILD_ENV_CXX', LDFLAGS='-Wl,--vf-build-env-leak',
+                             LDLIBS='-lvf_build_env_leak', ARFLAGS='q')
+                try:
+                    rc, out, r = p.build([target])
+                finally:
+                    p.env = saved
+                if rc != 0:
+                    res.violate((backend, 'single-target-build-failed'),
+                                dict(wb, target=target, output=out[-800:]))
+                    continue
+                again = by_step(p, r)[0]
+                for sid, rr in sorted(again.items()):
+                    if sid not in recs[backend][0]:
+                        continue
+                    res.ev('single-target-steps-compared')
+                    a0 = norm_argv(recs[backend][0][sid][0]['argv'], backend)
+                    a1 = norm_argv(rr[0]['argv'], backend)
+                    if a0 != a1:
+                        res.violate((backend, 'argv-depends-on-requested-target-or-build-environment',
+                                     m.steps[sid]['kind']),
+                                    dict(wb, target=target, step=sid, in_full_build=a0,
+                                         in_single_target_build=a1))
         res.sample = {'opts': opts, 'steps': len(m.steps),
                       'build.bfg': dag.render(spec)['build.bfg'][:1500]}
         return res
